@@ -14,6 +14,7 @@ Exit codes: 0 held (or only known findings); 1 violation; 2 internal error.
 """
 from __future__ import annotations
 
+import copy
 import hashlib
 import json
 import os
@@ -839,6 +840,41 @@ def run_check(chk: PropertyCheck, tier: str, seed: int, replay: str | None = Non
         tags[c.get("tag", "?")] = tags.get(c.get("tag", "?"), 0) + 1
         evaluated.append((c, obs))
 
+    # Order-of-evaluation stream (DESIGN §15): a spread sample of the base cases is evaluated a SECOND time, in
+    # reverse order, in this same process, after everything else has run.  An implementation that is a function
+    # of its inputs gives the same observation; one with process-wide state (a memo keyed too loosely, a class-
+    # level cache of a config value, a buffer handed out twice) may not.  A changed observation is not reported
+    # by itself: it is appended as one more evaluated case and goes through the model comparison and the oracle
+    # like every other case (so only an observation that now VIOLATES something is reported).
+    n_rerun = n_rerun_changed = 0
+    if not replay and getattr(chk, "rerun_sample", 160) and evaluated:
+        base = [(c, o) for c, o in evaluated if not c.get("_extra")]
+        want = min(len(base), int(getattr(chk, "rerun_sample", 160)))
+        step = max(1, len(base) // max(1, want))
+        t_impl = max(1.0, time.time() - t0)
+        t_rr = time.time()
+        budget = min(20.0, 0.08 * t_impl + 2.0)
+        for c, o in reversed(base[::step]):
+            if time.time() - t_rr > budget:
+                break
+            c2 = copy.deepcopy({k: v for k, v in c.items() if k != "_extra"})
+            o2, sk = safe_impl(chk, c2)
+            n_rerun += 1
+            if sk or o2 == o:
+                continue
+            try:
+                same = json.dumps(o2, sort_keys=True, default=str) == json.dumps(o, sort_keys=True, default=str)
+            except Exception:
+                same = False
+            if same:
+                continue
+            n_rerun_changed += 1
+            c2["tag"] = str(c2.get("tag", "?")) + "+rerun"
+            c2["_rerun"] = True
+            tags[c2["tag"]] = tags.get(c2["tag"], 0) + 1
+            k_ins = next((k for k, (cc, _) in enumerate(evaluated) if cc.get("_extra")), len(evaluated))
+            evaluated.insert(k_ins, (c2, o2))  # keep "base cases first, escalated extras last"
+
     # model side, batched.  The complete base set always goes through the driver; the extra (escalated)
     # cases go in chunks under a time budget — what does not fit is judged by the oracle alone.
     n_eval_base = len(evaluated) if n_base is None else sum(1 for c, _ in evaluated if not c.get("_extra"))
@@ -1026,6 +1062,8 @@ def run_check(chk: PropertyCheck, tier: str, seed: int, replay: str | None = Non
             "comparisons_tolerant": cmp.tolerant,
             "skipped_in_exclusion_band": skipped,
             "input_distribution": tags,
+            "order_of_evaluation_stream": {"cases_evaluated_twice": n_rerun,
+                                           "observation_changed_on_second_evaluation": n_rerun_changed},
             "impl_exception_kinds": impl_errs,
             "known_findings_seen": sorted(known_seen),
             "failing_input_search_cases": searched,
